@@ -358,6 +358,40 @@ pub const TEMPLATES: &[Template] = &[
     ..T0
   },
   Template {
+    name: "util-any-inside-has",
+    langs: JS,
+    severity: "warning",
+    message: "call passes a literal somewhere",
+    rule: "  matches: call-lit\n",
+    utils: &[
+      ("lit2", "    any:\n    - kind: number\n    - kind: string\n"),
+      ("call-lit", "    kind: call_expression\n    has:\n      stopBy: end\n      any:\n      - matches: lit2\n      - kind: template_string\n"),
+      ("unused-helper", "    all:\n    - kind: identifier\n    - inside:\n        stopBy: end\n        all:\n        - matches: call-lit\n        - not:\n            matches: lit2\n"),
+    ],
+    valid: &["foo(a)"],
+    invalid: &["foo(1)", "baz(\"s\")"],
+    ..T0
+  },
+  Template {
+    name: "global-any-inside-has",
+    langs: JS,
+    severity: "hint",
+    message: "statement containing a literal (global utils)",
+    rule: "  matches: g-stmt-with-literal\n",
+    needs_utils: &["g-literal", "g-stmt-with-literal"],
+    valid: &["foo(a);"],
+    invalid: &["foo(1);"],
+    ..T0
+  },
+  Template {
+    name: "g-stmt-with-literal",
+    langs: JS,
+    rule: "  kind: expression_statement\n  has:\n    stopBy: end\n    any:\n    - matches: g-literal\n    - kind: template_string\n",
+    needs_utils: &["g-literal"],
+    is_util: true,
+    ..T0
+  },
+  Template {
     name: "global-literal-call",
     langs: JS,
     severity: "info",
@@ -448,6 +482,17 @@ pub const TEMPLATES: &[Template] = &[
     message: "drop number in array",
     rule: "  kind: number\n  inside:\n    kind: array\n",
     fix: "\n  template: ''\n  expandEnd:\n    regex: ','\n",
+    valid: &["let a = 1"],
+    invalid: &["const arr = [1, 2, 3]"],
+    ..T0
+  },
+  Template {
+    name: "drop-trailing-array-number",
+    langs: JS,
+    severity: "hint",
+    message: "drop last number of the array",
+    rule: "  kind: number\n  nthChild:\n    position: 1\n    reverse: true\n  inside:\n    kind: array\n  follows:\n    kind: number\n    stopBy: end\n",
+    fix: "\n  template: ''\n  expandStart:\n    regex: ',\\s*'\n",
     valid: &["let a = 1"],
     invalid: &["const arr = [1, 2, 3]"],
     ..T0
@@ -651,7 +696,7 @@ pub fn instantiate(t: &Template, lang: &str, suffix: &str) -> RuleSpec {
   // references to global utils must carry the language tag too
   let fixrefs = |s: &str| -> String {
     let mut s = s.to_string();
-    for u in ["g-call-with-literal", "g-literal", "g-lit-or-id"] {
+    for u in ["g-call-with-literal", "g-literal", "g-lit-or-id", "g-stmt-with-literal"] {
       s = s.replace(&format!("matches: {u}\n"), &format!("matches: {u}-{tag}\n"));
     }
     s
